@@ -105,6 +105,28 @@ def run(ctx):
             for _ in range(r.randint(1, 3)):
                 one = enc_raw(r, pf, 0, 0, 1, 1)
                 msgs.insert(r.randint(0, len(msgs)), (sess.update([one]), ("update", [one], False)))
+        if kind == "vmware" and pf.bypp == 4:
+            # near misses of the workaround's pattern: other 20-byte messages about the top-left pixel (a 1x1 CopyRect to (0,0)),
+            # and the same 1x1 raw update one pixel further - each arrives as a chunk of its own in the "one message per chunk" run
+            for _ in range(r.randint(1, 3)):
+                near = r.choice([Rect(0, 0, 1, 1, E_COPY, struct.pack("!HH", r.randrange(3), r.randrange(3)), [], "copyrect"),
+                                 enc_raw(r, pf, 1, 0, 1, 1), enc_raw(r, pf, 0, 1, 1, 1)])
+                if near.kind == "copyrect":
+                    near.copy = struct.unpack("!HH", near.body) + (0, 0, 1, 1)
+                msgs.insert(r.randint(0, len(msgs)), (sess.update([near]), ("update", [near], False)))
+        if kind in ("lib", "cli") and si % 9 == 7:
+            # a local cursor shape (pointer at 0,0) and updates underneath it, each followed by further messages: the cursor
+            # has to be composited again after every update, however much more data the chunk holds
+            opts["pseudocursor"] = True
+            cur = enc_cursor(r, pf, 0, 0, r.choice([3, 8, 9]), r.choice([2, 5]))
+            cur.body = cur.body[:len(cur.body) - ((cur.w + 7) // 8) * cur.h] + b"\xff" * (((cur.w + 7) // 8) * cur.h)
+            tail = [(sess.update([cur]), ("update", [cur], False))]
+            for _ in range(r.randint(2, 5)):
+                u = enc_raw(r, pf, 0, 0, r.choice([2, 6, 12]), r.choice([2, 6]))
+                tail.append((sess.update([u]), ("update", [u], False)))
+                tail.append((sess.bell(), ("bell",)))
+            msgs += tail
+            ctx.count("sessions_with_cursor_under_updates")
         pieces = parts + [m[0] for m in msgs]
         stream = b"".join(pieces)
         ctx.count("version_%d.%d" % ver)
